@@ -1,5 +1,8 @@
 import SciVerif.Lemmas.C10
 import SciVerif.Lemmas.C10c
+import SciVerif.Lemmas.C10g
+import SciVerif.Lemmas.C10i
+import SciVerif.Lemmas.C10j
 import SciVerif.Facts.C10Table
 
 /-!
@@ -26,31 +29,6 @@ namespace SciVerif.C10
 
 /-! ## Counts -/
 
-/-- a count applies to a species or a parenthesised group; an explicit ` * n` ends its term -/
-def F.endsOpen : F → Bool
-  | .mulx _ _ => true
-  | .seq _ _ b => b.endsOpen
-  | .plus _ b => b.endsOpen
-  | _ => false
-
-def F.wf : F → Bool
-  | .sp s => !s.isEmpty
-  | .count (.sp s) n => !s.isEmpty && decide (1 ≤ n)
-  | .count (.group f) n => f.wf && decide (1 ≤ n)
-  | .count _ _ => false
-  | .mulx (.sp s) n => !s.isEmpty && decide (1 ≤ n)
-  | .mulx (.group f) n => f.wf && decide (1 ≤ n)
-  | .mulx _ _ => false
-  | .group f => f.wf
-  | .seq _ a b => a.wf && b.wf && !a.endsOpen
-  | .plus a b => a.wf && b.wf
-
-/-- a species text is one match of the species pattern with a single capital, no count -/
-def isSpeciesText (k : Str) : Bool :=
-  match matchP k with
-  | some (run, _, _, dg, rest) => decide (run ≤ 1) && dg.isEmpty && rest.isEmpty
-  | none => false
-
 /-- Full statement of the counting part of C10 (NOT proved as a whole, see the header): for
     every well-formed formula whose species the element parser accepts, the substance parsed
     from the rendered text has exactly the expanded counts. -/
@@ -69,6 +47,61 @@ theorem C10_counts_partial {α : Type} [Semiring α] (f : F) :
   intro k _
   simp only [Function.comp]
   rw [cget_eq_total _ _ (nodup_evalF f), total_evalF]
+
+/-- Solver level (proved): the generic expression solver with the operator table
+    `{par '(' , mul ' * ', add ' + '}` and the steps par(ARGS), mul(BINARY), add(BINARY) —
+    tokenizer, `OperatorPar` argument scan with nested solves, the three passes — applied to the
+    *explicit* solver text of any well-formed formula returns the substance whose components
+    are exactly the expansion of the formula.  Species texts are arbitrary strings of plain
+    characters (no blank, parenthesis, comma; not starting with a digit) that `Element` accepts;
+    any sufficient fuel. -/
+theorem C10_solver_partial (valid : Str → Bool) (f : F) (hwf : f.wf = true)
+    (hs : f.spAll (SpeciesOK valid)) (fuel : Nat) (hfuel : (renderExplicit f).length + 1 ≤ fuel) :
+    solveAux valid fuel [] (renderExplicit f) [] =
+      some (.sub ((expand f).map fun kn => (kn.1, (kn.2 : Rat)))) := by
+  rw [(solve_explicit_aux valid f (wf_factorOK f hwf) hs).2 fuel hfuel, C10_counts_partial]
+
+/-- The remaining link of the text-level statement, NOT proved: the four regex passes of
+    `SubstanceSolver.preprocess` (modelled by four scanners) rewrite the documented short notation
+    into the explicit solver text.  Evaluated by the driver on every generated formula and the
+    scanners are compared with the real regexes on every run. -/
+def C10_preprocess_statement : Prop :=
+  ∀ (f : F), f.wf = true → (∀ k ∈ speciesOf f, isSpeciesText k = true) →
+    preprocess (render f) = renderExplicit f
+
+/-- Text level, conditional on that one link: if `preprocess` turns the rendered formula into its
+    explicit text, then `Substance(render f).components` is exactly the expansion. -/
+theorem C10_counts_text_partial (valid : Str → Bool) (f : F) (hwf : f.wf = true)
+    (hs : f.spAll (SpeciesOK valid)) (hpre : preprocess (render f) = renderExplicit f)
+    (hne : render f ≠ []) :
+    substanceOf valid (render f) = some ((expand f).map fun kn => (kn.1, (kn.2 : Rat))) := by
+  have he : (render f).isEmpty = false := by
+    cases h : render f with
+    | nil => exact absurd h hne
+    | cons a t => rfl
+  simp only [substanceOf, he, solveStr, hpre]
+  rw [C10_solver_partial valid f hwf hs _ (by omega)]
+  simp
+
+/-- TEXT level, unconditional, for the documented *explicit* notation (`Na{23} + Cl`,
+    `O{17-1} * 3`, parentheses): for every well-formed formula of any nesting depth whose species
+    have the documented shape (one capital with an optional small letter, or `[p] [n] [e]`,
+    optional `{…}` suffix) and are accepted by `Element`, the whole pipeline
+    `Substance(text)` — the four preprocess scanners, tokenizer, `OperatorPar` scan with nested
+    solves, par/mul/add passes, `Composite.add/_add/_multiply` — yields exactly the expansion. -/
+theorem C10_counts_explicit_text_partial (valid : Str → Bool) (f : F) (hwf : f.wf = true)
+    (hs : f.spAll fun s => SpeciesShape s ∧ valid s = true) :
+    substanceOf valid (renderExplicit f) = some ((expand f).map fun kn => (kn.1, (kn.2 : Rat))) := by
+  have hst : f.spAll SpeciesText := spAll_mono (fun s h => speciesText_of_shape s h.1) f hs
+  have hok : f.spAll (SpeciesOK valid) :=
+    spAll_mono (fun s h => speciesOK_of_text valid s (speciesText_of_shape s h.1) h.2) f hs
+  have he : (renderExplicit f).isEmpty = false := by
+    cases h : renderExplicit f with
+    | nil => exact absurd h (renderExplicit_ne_nil f hst)
+    | cons a t => rfl
+  simp only [substanceOf, he, solveStr, preprocess_explicit f hst]
+  rw [C10_solver_partial valid f hwf hok _ (by omega)]
+  simp
 
 /-- each species is counted exactly as often as it occurs in the expanded formula, and no
     species is listed twice -/
@@ -115,6 +148,15 @@ theorem C10_species_data (el : Elem) (hel : el ∈ liveTable) (i : Iso) (hi : i 
              iso := i.A, ion := q } :=
   getIsotope_spec liveTable liveMe Facts.table_wellformed el hel i hi
     ((Facts.table_isotopes_found el hel).2 i hi).1 q
+
+/-- The specification the harness judges the real classes against (`Model/C10Spec.lean`, written
+    with `find?` directly over the table) and the model of `get_isotope` agree for an explicitly
+    given isotope on **every** input — any table, symbol, mass number, charge; also where both fail. -/
+theorem C10_spec_iso_eq_model (tbl : List Elem) (me : Rat) (nuc : Char → Option Rat) (natural : Bool)
+    (sym : Str) (A : Nat) (hA : A ≠ 0) (q : Int) :
+    Spec.speciesData tbl me nuc natural (.iso sym A q) =
+      (getIsotope tbl me sym A q).map fun d => ⟨d.mass, d.Z, d.N, d.e⟩ :=
+  spec_iso_eq_model tbl me nuc natural sym A hA q
 
 /-- natural composition: every reported value is the abundance-weighted mean over the isotopes
     (whenever the abundances do not sum to zero; otherwise the code raises) -/
@@ -176,5 +218,12 @@ example : expand exF = [(['O'], 2), (['H'], 11), (['C'], 3)] := by decide
 example : substanceOf (fun _ => true) (render exF) = some [(['O'], 2), (['H'], 11), (['C'], 3)] := by
   decide +kernel
 example : ∃ el ∈ liveTable, el.sym = ['C'] ∧ el.isos.length = 3 := by decide +kernel
+/-- the hypotheses of the text-level theorems are satisfiable: `(O + H) * 2 + (C + H * 3) * 3` -/
+example : exF.spAll (fun s => SpeciesShape s ∧ (fun _ => true) s = true) := by
+  have one : ∀ u : Char, isUp u = true → SpeciesShape [u] :=
+    fun u hu => ⟨[u], [], by simp, Or.inl rfl, Or.inl ⟨u, hu, rfl⟩⟩
+  exact ⟨⟨⟨one 'O' (by decide), rfl⟩, ⟨one 'H' (by decide), rfl⟩⟩,
+    ⟨⟨one 'C' (by decide), rfl⟩, ⟨one 'H' (by decide), rfl⟩⟩⟩
+example : String.ofList (renderExplicit exF) = "(O + H) * 2 + (C + H * 3) * 3" := by decide +kernel
 
 end SciVerif.C10
